@@ -119,7 +119,10 @@ func New(o Options) *Rig {
 		r.mu.Lock()
 		r.conns[bc.Key] = bc
 		r.mu.Unlock()
-		r.arrived <- bc
+		select {
+		case r.arrived <- bc: // wakes up a waiting Open; never blocks the backend
+		default:
+		}
 		defer close(bc.closeCh)
 		defer c.Close()
 		for {
@@ -243,6 +246,7 @@ func (r *Rig) Open(key string, version int, hdr http.Header, timeout time.Durati
 		}
 		select {
 		case <-r.arrived:
+		case <-time.After(2 * time.Millisecond):
 		case <-deadline:
 			return sm.ID, nil, res
 		}
